@@ -36,10 +36,34 @@ Proof.
     f_equal. apply IH. lia.
 Qed.
 
+Lemma concat_singles l : concat (singles l) = l.
+Proof. unfold singles. induction l as [|b l IH]; cbn [map concat app]; [reflexivity|rewrite IH; reflexivity]. Qed.
+
 Lemma marshal_le_parts e : marshal_le e = concat (le_parts e).
 Proof.
   unfold marshal_le, le_parts, marshal_bytes.
-  destruct (N.land (le_header e) 1 =? 0); cbn [concat app]; rewrite ?app_nil_r, <- ?app_assoc; reflexivity.
+  destruct (N.land (le_header e) 1 =? 0); rewrite !concat_app, !concat_singles; cbn [concat app]; rewrite ?app_nil_r, <- ?app_assoc; reflexivity.
+Qed.
+
+(* a buffer that is too small receives a prefix of the encoding (the parts that fit), the rest stays as it was *)
+Lemma fill_parts_prefix : forall parts room, exists k, (k <= room)%nat /\
+  fill_parts parts room = firstn k (concat parts) ++ repeat x00 (room - k) /\ (k <= length (concat parts))%nat.
+Proof.
+  induction parts as [|p tl IH]; intros room; cbn [fill_parts concat].
+  - exists O. split; [lia|]. split; [cbn [firstn app]; rewrite Nat.sub_0_r; reflexivity|cbn [length]; lia].
+  - destruct (Nat.ltb_spec room (length p)).
+    + exists O. split; [lia|]. split; [cbn [firstn app]; rewrite Nat.sub_0_r; reflexivity|lia].
+    + destruct (IH (room - length p)%nat) as (k & Hk & E & Hl). exists (length p + k)%nat.
+      split; [lia|]. rewrite E. rewrite firstn_app. replace (length p + k - length p)%nat with k by lia.
+      rewrite (firstn_all2 (n:=(length p + k)%nat) p) by lia. rewrite <- app_assoc. replace (room - (length p + k))%nat with (room - length p - k)%nat by lia.
+      split; [reflexivity|]. rewrite app_length. lia.
+Qed.
+
+Theorem marshal_into_short sz e : exists k, (k <= sz)%nat /\ (k <= length (marshal_le e))%nat /\
+  marshal_into sz e = firstn k (marshal_le e) ++ repeat x00 (sz - k).
+Proof.
+  unfold marshal_into. rewrite marshal_le_parts. destruct (fill_parts_prefix (le_parts e) sz) as (k & H1 & H2 & H3).
+  exists k. auto.
 Qed.
 
 (* what iwrapper.Get hands to the chunk writer is exactly the encoding of the event *)
